@@ -8,7 +8,7 @@
 From V Require Export Base CorrBase B64 Aead.
 
 Inductive probe :=
-| PSplice (pos del : nat) (ins : str)     (* g[:pos] ++ ins ++ g[pos+del:] of the first genuine text *)
+| PSplice (pos del : N) (ins : str)       (* g[:pos] ++ ins ++ g[pos+del:] of the first genuine text *)
 | PWhole (s : str)
 | PGen (i : nat).                         (* the text of the i-th genuine entry of the case, unchanged *)
 
@@ -73,7 +73,8 @@ Definition attributable (gs : list gen) (pk : N) (s : str) (v : N) : bool :=
 Definition text_of (g : option gen) : str := match g with Some (_, t, _) => t | None => [] end.
 Definition presented (gs : list gen) (p : probe) : str :=
   match p with
-  | PSplice pos del ins => let g := text_of (hd_error gs) in firstn pos g ++ ins ++ skipn (pos + del) g
+  | PSplice pos del ins =>
+      let g := text_of (hd_error gs) in firstn (N.to_nat pos) g ++ ins ++ skipn (N.to_nat (pos + del)) g
   | PWhole s => s
   | PGen i => text_of (nth_error gs i)
   end.
